@@ -650,7 +650,7 @@ def _c12_run(w, b, valid):
     # points one ulp apart can map to the same original-space point and are separate records
     byx = {}
     for c in valid:
-        key = c["u"].tobytes() if c.get("u") is not None else c["x"].tobytes()
+        key = (c["u"] + 0.0).tobytes() if c.get("u") is not None else c["x"].tobytes()   # +0.0: -0.0 and 0.0 are the same point
         byx.setdefault(key, []).append(c)
     level = fl.uncertainty_handling_level
     for i in range(n):
